@@ -27,7 +27,22 @@ def run(ctx):
         out = os.path.join(wd, "trace.ndjson")
         # every other run at page capacities 3/3: catalog and table pages split within the first statements
         caps = ["3", "3"] if i % 2 == 1 else ["0", "0"]
-        p = subprocess.run([binary, out, str(ctx.seed * 100 + i), str(rounds)] + caps, cwd=wd, capture_output=True, text=True, timeout=900)
+        # a run takes seconds; one that does not end is a statement or the flusher waiting for the lock for ever. It is
+        # tried a second time before it counts (a machine can be slow; a deadlock comes back)
+        p = None
+        for attempt in (1, 2):
+            try:
+                p = subprocess.run([binary, out, str(ctx.seed * 100 + i), str(rounds)] + caps, cwd=wd, capture_output=True, text=True,
+                                   timeout=(150 if ctx.quick() else 400))
+                break
+            except subprocess.TimeoutExpired as e:
+                cov["stats"]["driver-timeouts"] = cov["stats"].get("driver-timeouts", 0) + 1
+                last_err = (e.stderr or b"")[-1500:] if isinstance(e.stderr, bytes) else (e.stderr or "")[-1500:]
+        if p is None:
+            vlib.report_violation(ctx, dict(kind="lock-hang", run=i, caps=caps, detail=[
+                "the real-goroutine run (statements against the 100 ms flusher) did not finish twice in a row: a statement or the "
+                "flusher waits for the store's lock for ever"], stderr=str(last_err)), signature="lock-hang")
+            break
         try:
             summ = json.loads(p.stdout.strip().splitlines()[-1])
         except Exception:
@@ -56,6 +71,10 @@ def run(ctx):
         vlib.report_violation(ctx, dict(kind="locks-trace", rejected_at_event=pos, invariant=r.violated, events_before_and_at=evs,
                                         detail=["event %s by goroutine %s is not a step the locking protocol allows here" % (bad.get("e"), bad.get("g"))]),
                               signature="trace:%s:%s" % (bad.get("e"), bad.get("g")))
+    if any(sig == "lock-hang" for sig, _ in ctx.violations):
+        # everything that follows would wait on the same lock
+        vlib.write_evidence(ctx, "model_checking", cov, assumptions=["run cut short: the real-goroutine driver hung"])
+        return
     if cov["stats"].get("parked-until-flusher-tried", 0) == 0:
         raise vlib.Undecided("vacuous: no statement was ever parked until the flusher tried the lock")
     for k in ("stmt-create", "stmt-insert", "stmt-update", "stmt-delete", "stmt-select"):
